@@ -229,23 +229,23 @@ type world struct {
 	// redecide (replay of a chain world on another tree): when the reloads of the history come out differently than
 	// recorded, the table in force is computed anew from the outcomes of THIS tree
 	redecide bool
-	slot    int
-	dir     string
-	ad      addrs
-	text    string
-	app     *app.VerifApp
-	store   *queue.MemoryStore
-	conn    *grpc.ClientConn
-	cli     pb.WorkerServiceClient
-	base    string // dump right after seeding
-	lease   map[string]string
-	dirty   bool
-	boots   int
-	closed  bool
+	slot     int
+	dir      string
+	ad       addrs
+	text     string
+	app      *app.VerifApp
+	store    *queue.MemoryStore
+	conn     *grpc.ClientConn
+	cli      pb.WorkerServiceClient
+	base     string // dump right after seeding
+	lease    map[string]string
+	dirty    bool
+	boots    int
+	closed   bool
 
 	primersPassed, primersRefused int
-	buf                           []byte     // scratch of dump/changed
-	trail                         []caseSpec // rows sent since the last boot (trail_test.go)
+	buf                           []byte        // scratch of dump/changed
+	trail                         []caseSpec    // rows sent since the last boot (trail_test.go)
 	src                           *chainSources // chain_test.go: the token sources of the current boot
 }
 
